@@ -255,6 +255,42 @@ def pull_driven_effects(ctx, R):
                     "%s reads `%s.%s` outside Iterator::next (impl %s): the trace-writing action runs at a moment that is not a pull "
                     "(e.g. when an abandoned iterator is dropped), so recorded traces of queries that stop early no longer replay"
                     % (f["path"], short, act, f.get("impl_trait") or "inherent"))
+    # every item that passes through a recording closure of the tap is recorded: no exit of the closure precedes its `record` calls,
+    # and where the item carries an inner iterator (resolve_neighbors), every exit hands back the *tapped* iterator (the one whose
+    # end action writes OutputIteratorExhausted) - an untapped iterator leaves the replay waiting for an operation that was never written
+    nclo = 0
+    for f in C.fns:
+        if not f["path"].startswith(("<" + TR + "AdapterTap", TR + "AdapterTap")) or f["name"] not in METHODS:
+            continue
+        sc = Scope(C, f)
+        for clo in walk(f["body"]):
+            if clo.get("k") != "closure":
+                continue
+            order = {id(x): i for i, x in enumerate(walk(clo["body"]))}
+            recs = [x for x in walk(clo["body"]) if x.get("k") == "mcall" and x.get("name") == "record"
+                    and not any(x is y for inner in walk(clo["body"]) if inner.get("k") == "closure" for y in walk(inner["body"]))]
+            if not recs:
+                continue
+            nclo += 1
+            rets = [x for x in walk(clo["body"]) if x.get("k") == "ret"
+                    and not any(x is y for inner in walk(clo["body"]) if inner.get("k") == "closure" for y in walk(inner["body"]))]
+            early = [x for x in rets if order[id(x)] < max(order[id(r)] for r in recs)]
+            key = "%s/%s" % (f["name"], clo.get("def", "closure").split("::")[-1])
+            R.check(not early, "r6", "every-item-recorded/" + key, C.loc((early or [clo])[0]["sp"]),
+                    "a recording closure of AdapterTap::%s can return before its record(..) call: items leaving that way are missing from the trace" % f["name"])
+            exits = [strip(x["e"]) for x in rets if "e" in x]
+            body = clo["body"]
+            tail = strip(body.get("tail")) if isinstance(body, dict) and body.get("k") == "block" and "tail" in body else None
+            if tail is not None:
+                exits.append(tail)
+            for e in exits:
+                if e.get("k") == "tuple" and len(e["elems"]) == 2 and "dyn core::iter::traits::iterator::Iterator" in (C.S(strip(e["elems"][1]).get("ty")) or ""):
+                    toks = sc.tokens(e["elems"][1])
+                    R.check(any(t.startswith("call:") and t.endswith("make_iter_with_end_action") for t in toks), "r6",
+                            "inner-iterator-tapped/" + key, C.loc(e["sp"]),
+                            "AdapterTap::%s hands back an inner iterator that is not wrapped by the end-action helper: its exhaustion is "
+                            "never written to the trace and the replay reads the wrong operation" % f["name"])
+    R.floor("r6", "recording closures of the tap", nclo, 6)
     drops = [f for f in C.fns if f.get("impl_trait") == "core::ops::drop::Drop" and (f.get("self_ty") or "").startswith(TR)]
     R.check(not drops, "r6", "no-drop-effects", C.loc(drops[0]["sp"]) if drops else "-",
             "a type of the trace module has a Drop impl (%s): effects at drop time are not driven by a pull"
